@@ -528,16 +528,92 @@ impl Prop for LongStreams {
 }
 
 // ------------------------------------------------------------------------------------------------
-// readers opened with from_path(): default capacity, growth only through the policy installed afterwards
+// readers opened with from_path(): the buffer they start with does not depend on the file, growth only through the
+// policy installed afterwards
 
 #[derive(Clone, Debug, Serialize, Deserialize, Hash)]
 pub struct PathCase {
     pub format: Format,
     pub input: B,
     pub sets: bool,
+    /// the second file holds the document this many times (>= 2)
+    #[serde(default)]
+    pub rep: u8,
 }
 
 pub struct FromPath;
+
+type PathRun = (Vec<crate::driver::Out>, Vec<PolEvent>, usize);
+
+/// Reads `bytes` through a temporary file, `from_path()` and a recording StdPolicy: (outputs, policy requests, largest
+/// record-set buffer capacity seen).
+fn read_from_path(format: Format, bytes: &[u8], sets: bool) -> Result<PathRun, crate::engine::Failure> {
+    use crate::driver::{fa_err, fa_norm, fq_err, fq_norm, Out};
+    use crate::policy::{RecPolicy, Shared};
+    use seq_io::{fasta, fastq};
+    let f = fmt_name(format);
+    let path = std::env::temp_dir().join(format!("seqio_verif_c09_{}_{:?}", std::process::id(), std::thread::current().id()).replace(|ch: char| !ch.is_ascii_alphanumeric() && ch != '_', "_"));
+    if let Err(e) = std::fs::write(&path, bytes) {
+        fail!("harness/tempfile", "cannot write {}: {}", path.display(), e);
+    }
+    let shared = std::rc::Rc::new(Shared::default());
+    shared.input_len.set(bytes.len().max(1));
+    let (pol, log) = RecPolicy::new(PolKind::Std, shared.clone());
+    let mut outs: Vec<Out> = Vec::new();
+    let mut max_set_cap = 0usize;
+    macro_rules! go {
+        ($m:ident, $norm:ident, $err:ident) => {{
+            let rdr = match $m::Reader::from_path(&path) {
+                Ok(r) => r,
+                Err(e) => fail!(format!("{}/from_path/open-failed", f), "from_path failed: {}", e),
+            };
+            let mut rdr = rdr.set_policy(pol);
+            if sets {
+                let mut set = $m::RecordSet::default();
+                loop {
+                    match rdr.read_record_set(&mut set) {
+                        None => break,
+                        Some(Err(e)) => {
+                            outs.push(Out::Err($err(&e)));
+                            break;
+                        }
+                        Some(Ok(())) => {
+                            max_set_cap = max_set_cap.max(set.buf_capacity());
+                            for r in &set {
+                                shared.delivered.set(shared.delivered.get() + 1);
+                                outs.push(Out::Rec($norm(&r)));
+                            }
+                        }
+                    }
+                }
+            } else {
+                loop {
+                    match rdr.next() {
+                        None => break,
+                        Some(Err(e)) => {
+                            outs.push(Out::Err($err(&e)));
+                            break;
+                        }
+                        Some(Ok(r)) => {
+                            shared.delivered.set(shared.delivered.get() + 1);
+                            outs.push(Out::Rec($norm(&r)));
+                        }
+                    }
+                }
+            }
+        }};
+    }
+    match format {
+        Format::Fasta => go!(fasta, fa_norm, fa_err),
+        Format::Fastq => go!(fastq, fq_norm, fq_err),
+    }
+    let _ = std::fs::remove_file(&path);
+    outs.push(Out::End);
+    outs.push(Out::End);
+    outs.push(Out::End);
+    let events = log.borrow().clone();
+    Ok((outs, events, max_set_cap))
+}
 
 impl Prop for FromPath {
     type Case = PathCase;
@@ -550,32 +626,17 @@ impl Prop for FromPath {
                 Format::Fasta => prop_oneof![3 => gen::fasta_doc_with(4, 3), 2 => gen::long_read_doc(f), 3 => gen::big_input(f)].boxed(),
                 Format::Fastq => prop_oneof![3 => gen::fastq_valid_doc(4), 2 => gen::long_read_doc(f), 3 => gen::big_input(f)].boxed(),
             };
-            // files of several hundred kB: the document repeated (only if it ends with a line terminator)
-            (input, 1usize..6, any::<bool>()).prop_map(move |(input, rep, sets)| {
-                let input = if input.len() > 20_000 && input.last() == Some(&b'\n') { B(input.0.repeat(rep)) } else { input };
-                PathCase { format: f, input, sets }
-            })
+            (input, 2u8..6, any::<bool>()).prop_map(move |(input, rep, sets)| PathCase { format: f, input, sets, rep })
         };
         boxed(prop_oneof![per(Format::Fasta), per(Format::Fastq)])
     }
     fn check(&self, c: &PathCase, ctx: &mut Ctx) -> CheckResult {
-        use crate::driver::{fa_err, fa_norm, fq_err, fq_norm, Out};
-        use crate::policy::{RecPolicy, Shared};
-        use seq_io::{fasta, fastq};
         let f = fmt_name(c.format);
         let m = Model::build(c.format, &c.input);
         if m.term == Terminal::Unspecified {
             ctx.class("skipped: out-of-domain FASTQ group");
             return Ok(());
         }
-        let path = std::env::temp_dir().join(format!("seqio_verif_c09_{}_{:?}", std::process::id(), std::thread::current().id()).replace(|ch: char| !ch.is_ascii_alphanumeric() && ch != '_', "_"));
-        if let Err(e) = std::fs::write(&path, &c.input.0) {
-            fail!("harness/tempfile", "cannot write {}: {}", path.display(), e);
-        }
-        let shared = std::rc::Rc::new(Shared::default());
-        shared.input_len.set(c.input.len().max(1));
-        let (pol, log) = RecPolicy::new(PolKind::Std, shared.clone());
-        let max_e = m.recs.iter().map(|r| r.extent).max().unwrap_or(0);
         ctx.nontrivial(c, c);
         if c.input.len() > (1 << 17) {
             ctx.class("file larger than two default buffers");
@@ -583,91 +644,70 @@ impl Prop for FromPath {
         if c.input.len() < (1 << 16) {
             ctx.class("file smaller than the default buffer");
         }
-        let mut outs: Vec<Out> = Vec::new();
-        let mut max_set_cap = 0usize;
-        macro_rules! go {
-            ($m:ident, $norm:ident, $err:ident) => {{
-                let rdr = match $m::Reader::from_path(&path) {
-                    Ok(r) => r,
-                    Err(e) => fail!(format!("{}/from_path/open-failed", f), "from_path failed: {}", e),
-                };
-                let mut rdr = rdr.set_policy(pol);
-                if c.sets {
-                    let mut set = $m::RecordSet::default();
-                    loop {
-                        match rdr.read_record_set(&mut set) {
-                            None => break,
-                            Some(Err(e)) => {
-                                outs.push(Out::Err($err(&e)));
-                                break;
-                            }
-                            Some(Ok(())) => {
-                                max_set_cap = max_set_cap.max(set.buf_capacity());
-                                for r in &set {
-                                    shared.delivered.set(shared.delivered.get() + 1);
-                                    outs.push(Out::Rec($norm(&r)));
-                                }
-                            }
-                        }
-                    }
-                } else {
-                    loop {
-                        match rdr.next() {
-                            None => break,
-                            Some(Err(e)) => {
-                                outs.push(Out::Err($err(&e)));
-                                break;
-                            }
-                            Some(Ok(r)) => {
-                                shared.delivered.set(shared.delivered.get() + 1);
-                                outs.push(Out::Rec($norm(&r)));
-                            }
-                        }
-                    }
-                }
-            }};
-        }
-        match c.format {
-            Format::Fasta => go!(fasta, fa_norm, fa_err),
-            Format::Fastq => go!(fastq, fq_norm, fq_err),
-        }
-        let _ = std::fs::remove_file(&path);
-        outs.push(Out::End);
-        outs.push(Out::End);
-        outs.push(Out::End);
+        let (outs, events, set_cap) = read_from_path(c.format, &c.input, c.sets)?;
         crate::light::compare(&m, &outs, false)?;
-        let events = log.borrow().clone();
-        // every request must be justified by the group being parsed (a record, or the invalid / truncated group the
-        // input ends with) not fitting the current buffer; the first one reports the documented default capacity
-        if let Some(e) = events.first() {
-            ctx.class("a group larger than the default buffer");
-            ensure!(e.current == (1 << 16), format!("{}/from_path/initial-capacity", f), "the first growth request reports a capacity of {} instead of the default 65536", e.current);
-        }
+        // every request is justified by the group being parsed (a record, or the invalid / truncated group the input
+        // ends with) not fitting the buffer as it is then
         for e in &events {
             ensure!(
                 needs(&m, &c.input, e.delivered, e.current) != Some(false),
-                format!("{}/from_path/growth-although-every-record-fits", f),
-                "grow_to({}) while parsing group {} (largest record extent {}), which fits the current buffer",
+                format!("{}/from_path/unnecessary-growth", f),
+                "grow_to({}) while parsing group {}, which fits the current buffer",
                 e.current,
-                e.delivered,
-                max_e
+                e.delivered
             );
         }
-        if c.sets && events.is_empty() {
-            // the set's buffer is a copy of the reader's buffer: it stays in the order of the default capacity
+        if !events.is_empty() {
+            ctx.class("a group larger than the initial buffer");
+        }
+        // the same document several times in one file (only if it ends with a line terminator and without an error):
+        // the reader meets the same records, so it asks the policy the same questions and fills record sets of the
+        // same size - unless the buffer it starts with depends on the file length
+        if c.input.last() == Some(&b'\n') && m.term == Terminal::End && !m.recs.is_empty() {
+            let rep = (c.rep as usize).clamp(2, 5);
+            let big = c.input.0.repeat(rep);
+            // (a last line that is empty and unterminated glues the copies together: only documents that the model
+            // reads as rep x the same records are compared)
+            let m2 = Model::build(c.format, &big);
+            if m2.term != Terminal::End || m2.recs.len() != rep * m.recs.len() {
+                ctx.class("repetition skipped: the copies do not stay separate records");
+                return Ok(());
+            }
+            let (outs2, events2, set_cap2) = read_from_path(c.format, &big, c.sets)?;
+            crate::light::compare(&m2, &outs2, false)?;
+            let n_recs = outs.iter().filter(|o| matches!(o, crate::driver::Out::Rec(_))).count();
+            ensure!(outs2.iter().filter(|o| matches!(o, crate::driver::Out::Rec(_))).count() == rep * n_recs, format!("{}/from_path/repeated-file-record-count", f), "the file holding the document {} times does not deliver {} x {} records", rep, rep, n_recs);
+            let key = |v: &[PolEvent]| -> Vec<(usize, usize, Option<usize>)> { v.iter().map(|e| (e.delivered, e.current, e.answer)).collect() };
             ensure!(
-                max_set_cap <= (1 << 17),
-                format!("{}/from_path/buffer-larger-than-default", f),
-                "all records are smaller than 64 KiB, but a record set filled by a from_path() reader has a buffer of {} bytes (file size {})",
-                max_set_cap,
-                c.input.len()
+                key(&events) == key(&events2),
+                format!("{}/from_path/requests-depend-on-file-length", f),
+                "file of {} bytes: policy requests (records delivered, current, answer) {:?}; the same document {} times ({} bytes): {:?}",
+                c.input.len(),
+                key(&events),
+                rep,
+                big.len(),
+                key(&events2)
             );
+            ctx.class("compared with the same document repeated in one file");
+            if c.sets && c.input.len() > (1 << 17) && events.is_empty() {
+                // both files exceed two default buffers and nothing had to grow: the sets are copies of full buffers
+                ensure!(
+                    set_cap == set_cap2,
+                    format!("{}/from_path/buffer-depends-on-file-length", f),
+                    "record sets filled by a from_path() reader: largest buffer {} bytes for the file of {} bytes, {} bytes for the file of {} bytes",
+                    set_cap,
+                    c.input.len(),
+                    set_cap2,
+                    big.len()
+                );
+                ctx.class("record-set buffer sizes compared between the two files");
+            }
         }
         Ok(())
     }
 }
 
-pub const RULE: &str = "sub-check reader-vs-recording-policy: (format, document with record extents aimed at the capacity (+-3) or soup, 1 in 7: documents with records of 100..3000 bytes and tiny records in between, capacity up to 4096, any policy kind incl. refusing and Add(k), 1 in 7: policies with steps of thousands of bytes (Add(1000..20000), DoubleUntil / DoubleUntilLimited / RefuseAbove in the thousands), chunk script, history of next / records() / read_record_set / [read_record_set_exact] / set_policy / seek to a record (also as the very first call on a fresh reader)) -> (1) every grow_to argument equals the capacity adopted last (initial capacity first) and no source read asks for more bytes than the adopted size; (2) histories without exact reads: every request is justified by the extent of the record being parsed (FASTA: extent >= capacity; FASTQ: > for four terminated lines, >= for a group running to end of input); (3) a call returns BufferLimit iff the policy refused during that call; without exact reads the strict cursor model is followed THROUGH refusals (a refused call leaves the cursor where it is, so a policy installed afterwards lets the stream continue undisturbed), with exact reads up to the first refusal; (4) a replaced policy is never asked again. Sub-check long-streams: 200..3000 small records, or 8..700 records of 200..3000 bases with tiny records mixed in and (FASTA) leading blank lines, capacity = largest extent + 1 + slack (so up to several thousand bytes): the outcome equals the model and the policy is never asked. Sub-check from-path: documents of a few bytes up to ~1 MB written to a temporary file, opened with Reader::from_path() and given a recording StdPolicy: outcome = model; no growth request if every record fits the documented 64 KiB default, otherwise the first request reports 65536 and every request is justified; record sets filled by such a reader keep a buffer of at most 2 x 64 KiB. Sub-check policy-arithmetic: StdPolicy / DoubleUntil / DoubleUntilLimited against the documented formulas for sizes around the thresholds and up to 2^40. Non-trivial = >= 1 growth request or > 20 source reads without growth (reader), every case (others). Distinct = hash(case).";
+pub const RULE: &str = "sub-check reader-vs-recording-policy: (format, document with record extents aimed at the capacity (+-3) or soup, 1 in 7: documents with records of 100..3000 bytes and tiny records in between, capacity up to 4096, any policy kind incl. refusing and Add(k), 1 in 7: policies with steps of thousands of bytes (Add(1000..20000), DoubleUntil / DoubleUntilLimited / RefuseAbove in the thousands), chunk script, history of next / records() / read_record_set / [read_record_set_exact] / set_policy / seek to a record (also as the very first call on a fresh reader)) -> (1) every grow_to argument equals the capacity adopted last (initial capacity first) and no source read asks for more bytes than the adopted size; (2) histories without exact reads: every request is justified by the extent of the record being parsed (FASTA: extent >= capacity; FASTQ: > for four terminated lines, >= for a group running to end of input); (3) a call returns BufferLimit iff the policy refused during that call; without exact reads the strict cursor model is followed THROUGH refusals (a refused call leaves the cursor where it is, so a policy installed afterwards lets the stream continue undisturbed), with exact reads up to the first refusal; (4) a replaced policy is never asked again. Sub-check long-streams: 200..3000 small records, or 8..700 records of 200..3000 bases with tiny records mixed in and (FASTA) leading blank lines, capacity = largest extent + 1 + slack (so up to several thousand bytes): the outcome equals the model and the policy is never asked. Sub-check from-path: documents of a few bytes up to ~250 kB written to a temporary file, opened with Reader::from_path() and given a recording StdPolicy: outcome = model and every growth request is justified by the group being parsed; metamorphic part: a second file holding the same document 2..5 times must produce exactly the same policy requests (and, for files larger than two default buffers, record sets with the same buffer size) - the buffer from_path() starts with does not depend on the file. Sub-check policy-arithmetic: StdPolicy / DoubleUntil / DoubleUntilLimited against the documented formulas for sizes around the thresholds and up to 2^40. Non-trivial = >= 1 growth request or > 20 source reads without growth (reader), every case (others). Distinct = hash(case).";
 
 pub fn run(tier: Tier) -> i32 {
     let mut run = Run::new("C09", tier, "exploration");
